@@ -95,6 +95,21 @@ func ExecSched(sc sim.Script) *sim.Outcome {
 							}
 						}
 					}
+				case "tcommit": // a transaction's writes are handed to its block while other tasks read through that transaction cache
+					if t := w.txn(op.T); t != nil {
+						t.tc.Commit()
+					}
+					r.skip = true
+				case "tget":
+					if t := w.txn(op.T); t != nil {
+						var v statecache.Value
+						v, r.hit = t.tc.Get(op.Y)
+						if r.hit {
+							r.val = render(v)
+						}
+					} else {
+						r.skip = true
+					}
 				case "bgetc": // BlockCache.Get / Set on a block that IS being committed: judged by the race / panic clauses only
 					// (after its commit a block cache answers from the previous block's chain, see DESIGN.md 16.4)
 					if b := w.blk(op.B); b != nil {
@@ -183,6 +198,16 @@ func ExecSched(sc sim.Script) *sim.Outcome {
 		for _, r := range rs {
 			if r.op.K == "bcommit" {
 				w.stats.Inc("mut")
+				continue
+			}
+			if r.op.K == "tget" && !r.skip {
+				// what a transaction wrote or removed is what a lookup through it returns: before its commit from its
+				// own map, afterwards from its block's, at no moment from further down
+				if t := w.txn(r.op.T); t != nil {
+					if e, ok := t.m[r.op.Y]; ok {
+						w.judge(ti, r, e, true, true)
+					}
+				}
 				continue
 			}
 			if r.skip || w.blk(r.op.B) == nil {
